@@ -3,6 +3,27 @@
 import json, subprocess, sys
 ALL = ["C%02d" % i for i in range(1, 21)]
 CHECKS = {
+ "C01": dict(level="exploration", ref="DESIGN.md §3 C01",
+   technique="runtime monitor at the API boundary with position-coded payloads over two real stacks joined by an adversarial wire (drop/duplicate/delay/reorder/replay), bulk in virtual time (testing/synctest), subset in real time under the race detector",
+   text="Every byte returned by Read is compared with the byte written at that stream offset and must lie below the bytes offered to Write so far; scenarios vary IP version, SACK, congestion controller, MTU, buffers, chunking, reader pacing, fault mix and ISS placement (streams crossing 2^31/2^32 are counted from the wire). Exploration: the schedule of goroutines is not pinned; hundreds (quick) to tens of thousands (thorough) of scenarios.",
+   note="Trusted: the payload function and harness wire (h/tcpx, h/wire); Go's synctest for virtual time (go1.26.8); ISS steering through crypto/rand.Reader. Packets are never altered."),
+ "C02": dict(level="fault_enumeration", ref="DESIGN.md §3 C02",
+   technique="fault enumeration in virtual time: packet identities of each base exchange are enumerated from a fault-free run, then every class is dropped once/twice, pairs are dropped, ACKs/data are held back (reordering), plus random-fault scenarios; completion-or-explicit-error by a virtual deadline is the oracle",
+   text="For ~34 base exchanges (sizes, close orders, half-close, closed receive window in several timings) every packet class is dropped (first/middle/last/PRNG identities; all in thorough), pairs are dropped, and packets are delayed; each run must complete with end-of-stream after exactly the written bytes and correct closed-state observables, or fail with an explicit error, within 30 virtual minutes; a quiet connection is a stall.",
+   note="Trusted: virtual time (synctest), identity keys (direction, flags, relative seq, length / ack, window). 'Eventually' restated as 'by virtual T'. Known finding: no persist timer."),
+ "C03": dict(level="exploration", ref="DESIGN.md §3 C03",
+   technique="scripted raw peer (independent RFC codec) against one real stack in virtual time with quiescence after every injected segment; Accept/Connect results and emitted resets judged against the RFC 793 reset rule",
+   text="Thousands of handshake scripts (passive and active, normal / cookie / genuine-pressure mode, PRNG option sets, wrap-adjacent ISS, wrong acknowledgements at +-1, +-2, +-2^16, 2^31, 0, 2^32-1 and random, duplicate/other SYN, RST in and out of window, early data, cross-tuple ACKs) and strays with every flag combination; a connection may appear only after the exact acknowledgement, bad acknowledgements draw exactly one reset with that sequence number, strays draw exactly one RFC-shaped reset, resets are never answered.",
+   note="Trusted: h/rfc for building/decoding segments, quiescence (synctest.Wait) for attributing replies. Known finding: cookie validation accepts near-miss ACKs."),
+ "C04": dict(level="exploration", ref="DESIGN.md §3 C04",
+   technique="online monitor over every segment a real stack emits to a scripted raw peer in virtual time: unwrapped right-edge/MSS/MTU bounds on the send side, monotone advertised edge, acceptance and deliverability on the receive side",
+   text="The peer script mixes application writes, cumulative ACKs with hostile windows (0, 1, MSS-1, scaled, shrinking), re-sent stale ACKs, pauses, in-window / out-of-order / beyond-window data, reader stop/resume and receive-buffer changes; every emitted data segment must end at or before the largest right edge the peer has sent so far, fit the peer MSS and the MTU and carry the written bytes; the advertised edge must not retreat; in-window data must be acknowledged and readable; beyond-window bytes must never be readable; a closed window must reopen.",
+   note="Trusted: quiescence after every step makes 'sent so far' = 'processed so far'. Known finding: advertised edge retreats by < one scale unit (window field truncation)."),
+ "C05": dict(level="exploration", ref="DESIGN.md §3 C05",
+   technique="totally ordered virtual-time log of a real stack's emissions against a scripted raw peer; timing clauses decided on logical instants (no wall clock), window clauses by counting at every emission",
+   text="'silent' scripts check every timeout retransmission (right segment, >= 200 ms after its previous transmission, intervals at least doubling, one segment per expiry); 'fastrexmit' scripts lose each position of a flight and require the retransmission at the instant the third duplicate ACK is delivered; 'cwnd' scripts count distinct segments in flight against 10 + acknowledged + duplicate ACKs (Reno) and 10 before the first ACK.",
+   note="Trusted: virtual time makes 'same instant' exact; CUBIC is held only to the clauses not qualified 'default controller'."),
+
  "C08": dict(level="exploration", ref="DESIGN.md §3 C08",
    technique="runtime reference-model monitor: real fragmentation.Process vs per-key byte-map reference in lock-step (exhaustive small scope + PRNG), -race concurrent delivery, virtual-time (synctest) timeout scenarios",
    text="Every fragment fed to the real reassembler is also fed to a reference byte map; delivery is demanded exactly when the reference is complete (incl. last fragment) and the delivered bytes are compared with the key/offset-coded original. Small scopes are enumerated completely (all compositions x orders x one extra duplicate/overlap), larger ones sampled; concurrent delivery runs under the race detector; the timeout clause runs in virtual time.",
@@ -52,7 +73,13 @@ m = {
    "add_only": True,
  },
  "engines": [
-   {"name":"fw","path":"h/fw","serves_properties":sorted(CHECKS),"kind_free_text":"verdict/evidence/known-findings/PRNG machinery shared by all monitors"},
+   {"name":"fw","path":"h/fw","serves_properties":sorted(CHECKS),"kind_free_text":"verdict/evidence/known-findings/PRNG/child-process/race-report machinery shared by all monitors"},
+   {"name":"rfc","path":"h/rfc","serves_properties":["C03","C04","C05","C06","C07","C11","C12","C13","C15"],"kind_free_text":"independent RFC codec (imports nothing from /repo)"},
+   {"name":"wire+tcpx","path":"h/wire, h/tcpx","serves_properties":["C01","C02","C14"],"kind_free_text":"harness link endpoint, adversarial two-stack wire, TCP scenario runner with position-coded payloads"},
+   {"name":"rawpeer","path":"h/rawpeer","serves_properties":["C03","C04","C05"],"kind_free_text":"scripted raw TCP peer over the harness link"},
+   {"name":"vt","path":"h/vt","serves_properties":["C01","C02","C03","C04","C05","C08"],"kind_free_text":"virtual-time substrate: testing/synctest bubble under go1.26.8"},
+   {"name":"sched","path":"h/sched","serves_properties":["C18"],"kind_free_text":"schedule controller: DFS over decision sequences at verif schedule points"},
+   {"name":"hist","path":"h/hist","serves_properties":["C10","C17","C18","C19"],"kind_free_text":"history recorder + porcupine v1.3.0"},
  ],
  "checks": [],
  "not_applicable": [],
